@@ -99,7 +99,8 @@ def handle (line : String) : String :=
         | none => badCase "impl files"
         | some files =>
           if checkSearch shards q files then answer model
-          else specFail model (if files == pipelineSearch shards q then failKeySel shards (typeRepoEval shards q) else "search-differs")
+          else specFail model (if hasEmptyBranch q then "branch-empty-pattern"
+            else if files == pipelineSearch shards q then failKeySel shards (typeRepoEval shards q) else "search-differs")
       | _ => badCase "query"
   | "list" :: r =>
     match pShards r with
@@ -113,10 +114,11 @@ def handle (line : String) : String :=
         | none => badCase "impl names"
         | some names =>
           if checkList shards q names then answer model
-          else specFail model (if names == sortStrs (shardedListNames shards q1) then failKeySel shards (simplify q1) else "list-differs")
+          else specFail model (if hasEmptyBranch q then "branch-empty-pattern"
+            else if names == sortStrs (shardedListNames shards q1) then failKeySel shards (simplify q1) else "list-differs")
       | _ => badCase "query"
-  | ["agg", inS] =>
-    match (inS.splitOn "|").mapM parseEntries with
+  | "agg" :: shardsS =>
+    match shardsS.mapM parseEntries with
     | none => badCase "entries"
     | some perShard =>
       let model := showEntries (sortEntries (aggregate perShard))
